@@ -422,6 +422,26 @@ def gen_calls_case(rng):
     return gen_scale(rng, case)
 
 
+def gen_tiny_relative_case(rng):
+    B = 2 ** rng.choice([31, 33, 40])
+    E = 2 ** rng.choice([20, 25])
+    d = rng.choice([1, 1, 2, 3])
+    side = rng.choice([1, -1])
+    P = lambda src, prio, pref, lo, hi, t, must: {"t": "p", "src": src, "prio": prio, "pref": pref, "lo": lo, "hi": hi, "time": t, "must": must}
+    kind = rng.choice(["incl", "excl", "both"])
+    s0 = {"incl": [-B, B], "excl": [-E, E]}
+    s1 = {"incl": [-(B - d), B - d] if kind in ("incl", "both") else [-B, B],
+          "excl": [-(E + d), E + d] if kind in ("excl", "both") else [-E, E]}
+    pref = side * (2 * B if kind == "incl" else E // 2 if kind == "excl" else rng.choice([2 * B, E // 2]))
+    evs = [P("a", 1, pref, None, None, 0, rng.random() < 0.5)]
+    if rng.random() < 0.5:
+        evs.append(P("b", 3, None, -2 * B, 2 * B, 0, False))
+    evs += [{"t": "b", "sys": s1}, {"t": "x", "now": 8, "must": rng.random() < 0.3}]
+    if rng.random() < 0.5:      # and back, or further
+        evs += [{"t": "b", "sys": rng.choice([s0, {"incl": [-(B - 2 * d), B - 2 * d], "excl": s1["excl"]}])}, {"t": "x", "now": 16, "must": False}]
+    return {"sys": s0, "events": evs}
+
+
 class CallsStream(Stream):
     name = "calls"
     coq_header = CALLS_HEADER
@@ -437,6 +457,10 @@ class CallsStream(Stream):
                                     {"t": "x", "now": 500, "must": False}, {"t": "x", "now": 930, "must": True}]}
         for _ in range(900 if tier == "quick" else 15000):
             yield gen_calls_case(rng)
+        # system bounds that move by one part in 2^31 or less (float noise in summed bounds is of that order):
+        # a target sitting on a bound or on an exclusion edge has to follow, whatever must_return_power is
+        for _ in range(60 if tier == "quick" else 600):
+            yield gen_tiny_relative_case(rng)
 
     def run_impl(self, case):
         return run_calls(case)
@@ -477,6 +501,8 @@ class CallsStream(Stream):
             out.append("must_return_power_false")
         if any(r is None and e["t"] != "b" for e, (r, _) in zip(case["events"], obs["calls"])):
             out.append("call_returned_None")
+        if max(abs(v) for v in (case["sys"]["incl"] or [0, 0])) >= 2 ** 31:
+            out.append("bounds_move_by_a_tiny_relative_amount")
         # sweeps that drop >= 2 proposals at once
         ma = case.get("max_age8", 480)
         live = {}
